@@ -201,6 +201,9 @@ struct Ctx {
     /// (c06_cache_transparent_if_stable), so the reference (each query alone, and the component
     /// tables of the model) is taken from an application WITHOUT cache.
     cache: bool,
+    /// run-sequence families: the earlier runs of the sequence on the same application instance
+    /// (recorded in the case description so that a replay can repeat them first)
+    prior: Vec<Value>,
 }
 const ECACHE_PRECISIONS: [(i32, i32); 3] = [(0, 0), (1, 2), (2, 2)];
 /// marker for the reference application of a variant (parallelism 1, never a cache)
@@ -210,7 +213,7 @@ impl Ctx {
         let net = write_network(&out.join("net"), net_seed);
         let sink_dir = out.join("sink");
         std::fs::create_dir_all(&sink_dir).unwrap();
-        Ctx { net, apps: HashMap::new(), pools: HashMap::new(), sink_dir, energy: false, cache: false }
+        Ctx { net, apps: HashMap::new(), pools: HashMap::new(), sink_dir, energy: false, cache: false, prior: vec![] }
     }
     fn app(&mut self, p_cfg: usize, lb: bool, iter: bool) -> &CompassApp {
         if !self.apps.contains_key(&(p_cfg, lb, iter)) {
@@ -686,6 +689,12 @@ fn sink_format_json(fmt: u8) -> Value {
     match fmt {
         1 => json!({"type": "json", "newline_delimited": false}),
         2 => csv_format_json(),
+        // plain (non-optional) paths into the route only: a response without a route (a failed
+        // search, a pre-search error) gives a record that consists of separators only
+        3 => json!({"type": "csv", "sorted": false, "mapping": {
+            "cost": "route.cost.total_cost",
+            "time": "route.traversal_summary.time",
+            "distance": "route.traversal_summary.distance"}}),
         _ => json!({"type": "json", "newline_delimited": true}),
     }
 }
@@ -962,10 +971,15 @@ fn run_once(ctx: &mut Ctx, queries: &[Value], order: &[usize], cfg: &Cfg, sink_f
         Ok(Ok(rs)) => {
             let ret: Vec<i64> = rs.iter().map(|r| intern.id_resp(r)).collect();
             let wr = if cfg.sink {
-                let text = std::fs::read_to_string(sink_file).unwrap_or_default();
-                let mut ids: Vec<i64> = read_sink_records(&text, cfg.fmt, intern);
-                ids.sort();
-                show_list(&ids, |i| i.to_string())
+                match std::fs::read_to_string(sink_file) {
+                    // the run's own output file does not exist: nothing was written for this run
+                    Err(_) => "<absent>".to_string(),
+                    Ok(text) => {
+                        let mut ids: Vec<i64> = read_sink_records(&text, cfg.fmt, intern);
+                        ids.sort();
+                        show_list(&ids, |i| i.to_string())
+                    }
+                }
             } else {
                 "-".to_string()
             };
@@ -978,7 +992,7 @@ fn run_once(ctx: &mut Ctx, queries: &[Value], order: &[usize], cfg: &Cfg, sink_f
 /// closing bracket): ids of the canonical responses (JSON sinks) or of the rows (CSV)
 fn read_sink_records(text: &str, fmt: u8, intern: &mut Intern) -> Vec<i64> {
     match fmt {
-        2 => text.lines().skip(1).filter(|l| !l.is_empty()).map(|l| intern.id(format!("csvrow:{}", l))).collect(),
+        2 | 3 => text.lines().skip(1).filter(|l| !l.is_empty()).map(|l| intern.id(format!("csvrow:{}", l))).collect(),
         1 => {
             // "[\n" then pretty-printed objects one after the other
             let body = text.trim_start().strip_prefix('[').unwrap_or(text);
@@ -1058,27 +1072,37 @@ fn batch_case(
     let tbl = coq_tables(tables);
     let alone_coq = coq_list(&tables.alone.iter().collect::<Vec<_>>(), |(i, l)| format!("({}, {})", coq_z(**i as i128), coq_zl(l)));
     let (impl_ok, impl_ret, impl_wr) = parse_payload(&payload);
-    // CSV sink: the record the REAL format_response makes of every known response
-    let rowmap: Vec<(i64, i64)> = if cfg.sink && cfg.fmt == 2 {
+    // CSV sinks: the record the REAL format_response makes of every known response, and what it
+    // makes of the response itself (a non-optional path that is missing is recorded in the response)
+    let mut rowmap: Vec<(i64, i64)> = vec![];
+    let mut fmtmap: Vec<(i64, i64)> = vec![];
+    if cfg.sink && cfg.fmt >= 2 {
         use routee_compass::app::compass::response::response_output_format::ResponseOutputFormat;
-        let f: ResponseOutputFormat = serde_json::from_value(csv_format_json()).expect("csv format");
+        let f: ResponseOutputFormat = serde_json::from_value(sink_format_json(cfg.fmt)).expect("csv format");
         let mut known: Vec<(i64, Value)> = intern.vals.iter().map(|(k, v)| (*k, v.clone())).collect();
         known.sort_by_key(|(k, _)| *k);
-        known
-            .into_iter()
-            .map(|(k, mut v)| {
-                let row = f.format_response(&mut v).unwrap_or_else(|e| format!("<format error {}>", e));
-                (k, intern.id(format!("csvrow:{}", row)))
-            })
-            .collect()
-    } else {
-        vec![]
-    };
+        let mut seen = std::collections::BTreeSet::new();
+        for (k, mut v) in known {
+            let row = f.format_response(&mut v).unwrap_or_else(|e| format!("<format error {}>", e));
+            let rid = intern.id(format!("csvrow:{}", row));
+            let k2 = intern.id_resp(&v); // the response after formatting
+            if seen.insert(k) {
+                rowmap.push((k, rid));
+            }
+            if k2 != k {
+                fmtmap.push((k, k2));
+                if seen.insert(k2) {
+                    rowmap.push((k2, rid));
+                }
+            }
+        }
+    }
     let rowmap_coq = coq_list(&rowmap, |(a, b)| format!("({}, {})", coq_z(*a as i128), coq_z(*b as i128)));
+    let fmtmap_coq = coq_list(&fmtmap, |(a, b)| format!("({}, {})", coq_z(*a as i128), coq_z(*b as i128)));
     // under the discard policy without a sink the successful responses are observable nowhere
     let spec_applies = !(cfg.discard && !cfg.sink);
     let mut terms = vec![format!(
-        "batch_line {} {} {} {} {} {} {} {} {}",
+        "batch_line {} {} {} {} {} {} {} {} {} {}",
         id,
         coq_bool(cfg.discard),
         coq_bool(cfg.sink),
@@ -1087,11 +1111,12 @@ fn batch_case(
         tbl,
         coq_zl(&order_z),
         coq_string(&flags),
-        rowmap_coq
+        rowmap_coq,
+        fmtmap_coq
     )];
     if spec_applies {
         terms.push(format!(
-            "batch_spec_line {} {} {} {} {} {} {} {} {} {}",
+            "batch_spec_line {} {} {} {} {} {} {} {} {} {} {}",
             id,
             coq_bool(cfg.discard),
             coq_bool(cfg.sink),
@@ -1101,7 +1126,8 @@ fn batch_case(
             coq_zl(&impl_ret),
             coq_zl(&impl_wr),
             coq_bool(impl_ok),
-            rowmap_coq
+            rowmap_coq,
+            fmtmap_coq
         ));
     }
     // histogram
@@ -1114,7 +1140,7 @@ fn batch_case(
     st.count(if cfg.discard { "policy:discard" } else { "policy:persist" });
     st.count(if cfg.sink { "sink:file" } else { "sink:none" });
     if cfg.sink {
-        st.count(["sink_format:ndjson", "sink_format:json", "sink_format:csv"][cfg.fmt.min(2) as usize]);
+        st.count(["sink_format:ndjson", "sink_format:json", "sink_format:csv_optional", "sink_format:csv_route_columns"][cfg.fmt.min(3) as usize]);
         st.count(&format!("file_flush_rate:{}", match cfg.flush { None => "default".to_string(), Some(n) if n > 100 => ">batch".to_string(), Some(n) => n.to_string() }));
     }
     if payload == "Panic" {
@@ -1154,7 +1180,7 @@ fn batch_case(
         "id": id, "family": family, "net_seed": net_seed, "queries": queries, "fams": fams, "order": order,
         "p_cfg": cfg.p_cfg, "p_run": cfg.p_run, "lb": cfg.lb, "iter": cfg.iter, "discard": cfg.discard,
         "sink": cfg.sink, "threads": cfg.threads, "reps": cfg.reps, "flush": cfg.flush, "fmt": cfg.fmt,
-        "queries_in_class_K": k_queries, "flags": flags.trim(),
+        "queries_in_class_K": k_queries, "flags": flags.trim(), "prior_runs": ctx.prior.clone(),
     });
     if st.full {
         // replay: show what the numbers stand for
@@ -1263,7 +1289,7 @@ fn gen_cfg(r: &mut Rng, n: usize) -> Cfg {
             8 => Some(100),
             _ => Some(n as i64 * 5 + 11), // larger than any number of responses of the batch
         },
-        fmt: *r.pick(&[0u8, 0, 0, 1, 2]),
+        fmt: *r.pick(&[0u8, 0, 0, 1, 2, 3]),
     }
 }
 
@@ -1305,6 +1331,18 @@ fn repeat_case(st: &mut Stream, ctx: &mut Ctx, net_seed: u64, q: &Value, runs: u
         vec![format!("I {} {}", id, payload)],
         desc,
     );
+}
+
+/// a base case description with the fields of one step (sink, discard, fmt, flush, order, p_run) on top
+fn step_desc(base: &Value, step: &Value) -> Value {
+    let mut d = base.clone();
+    if let (Some(o), Some(s)) = (d.as_object_mut(), step.as_object()) {
+        o.remove("flush");
+        for (k, v) in s {
+            o.insert(k.clone(), v.clone());
+        }
+    }
+    d
 }
 
 fn parse_batch_desc(c: &Value) -> (Vec<Value>, Vec<&'static str>, Vec<usize>, Cfg) {
@@ -1366,6 +1404,16 @@ fn stream_batch(a: &Args, energy: bool, cache: bool) {
         }
         let (queries, fams, order, cfg) = parse_batch_desc(c);
         let mut cache = HashMap::new();
+        // the earlier runs of a run sequence, on the same application instance
+        if let Some(prior) = c["prior_runs"].as_array() {
+            let scratch = ctx.sink_dir.join("prior.out");
+            let mut tmp = Intern::new();
+            for pr in prior {
+                let (_, _, o2, c2) = parse_batch_desc(&step_desc(c, pr));
+                let _ = run_once(&mut ctx, &queries, &o2, &c2, &scratch, &mut tmp);
+            }
+            ctx.prior = prior.clone();
+        }
         batch_case(&mut st, &mut ctx, net_seed, &queries, &fams, &order, &cfg, &mut cache, "replay");
         st.finish();
         return;
@@ -1390,6 +1438,17 @@ fn stream_batch(a: &Args, energy: bool, cache: bool) {
                 let (queries, fams, order, cfg) = parse_batch_desc(c);
                 let mut cache = HashMap::new();
                 batch_case(&mut st, &mut ctx, net_seed, &queries, &fams, &order, &cfg, &mut cache, "corpus");
+            }
+            if c["kind"] == json!("sequence") && !energy {
+                // several runs on one application instance: base description + one object per step
+                let mut cache = HashMap::new();
+                ctx.prior = vec![];
+                for step in c["steps"].as_array().cloned().unwrap_or_default() {
+                    let (queries, fams, order, cfg) = parse_batch_desc(&step_desc(c, &step));
+                    batch_case(&mut st, &mut ctx, net_seed, &queries, &fams, &order, &cfg, &mut cache, "corpus");
+                    ctx.prior.push(step);
+                }
+                ctx.prior = vec![];
             }
             if c["kind"] == json!("repeat") && energy {
                 repeat_case(&mut st, &mut ctx, net_seed, &c["query"], c["runs"].as_u64().unwrap_or(300) as usize, "corpus");
@@ -1539,10 +1598,44 @@ fn stream_batch(a: &Args, energy: bool, cache: bool) {
                 j += 1;
                 let order: Vec<usize> = (0..n).collect();
                 let (lb, iter) = [(false, false), (true, false), (false, true), (true, true)][j % 4];
-                let cfg = Cfg { p_cfg: 2, p_run: Some(1 + j % 4), lb, iter, discard: j % 2 == 0, sink: true, threads: 4, reps: 2, flush, fmt: (j % 3) as u8 };
+                let cfg = Cfg { p_cfg: 2, p_run: Some(1 + j % 4), lb, iter, discard: j % 2 == 0, sink: true, threads: 4, reps: 2, flush, fmt: (j % 4) as u8 };
                 batch_case(&mut st, &mut ctx, net_seed, &qs, &fs, &order, &cfg, &mut cache, "sink_flush_rate");
             }
         }
+    }
+    // ---- several runs on ONE application instance (configured parallelism 5: used by nothing
+    //      else) whose per-run output policy changes from run to run: none -> file A discard ->
+    //      file B discard -> persist with file -> none discard -> ...; every run's responses must
+    //      all be in that run's own sink / return value
+    {
+        let mk = |i: usize, o: usize, d: usize| -> Value {
+            let mut q = json!({"origin_vertex": o, "destination_vertex": d, "qid": i});
+            if energy {
+                q["model_name"] = json!("Toyota_Camry");
+            }
+            q
+        };
+        let qs: Vec<Value> = vec![mk(0, 0, 24), mk(1, 3, 11), mk(2, 1, 26), mk(3, 20, 4), mk(4, 9, 9), mk(5, 14, 8)];
+        let fs: Vec<&'static str> = vec!["valid", "valid", "unreachable", "valid", "same_vertex", "valid"];
+        let mut cache = HashMap::new();
+        // (sink, discard, fmt, order)
+        let steps: Vec<(bool, bool, u8, Vec<usize>)> = vec![
+            (false, false, 0, vec![0, 1, 2]),
+            (true, true, 0, vec![0, 1, 2, 3]),
+            (true, true, 0, vec![3, 4, 5]),
+            (true, false, 2, vec![0, 2, 4]),
+            (false, true, 0, vec![1, 2]),
+            (true, true, 3, vec![0, 1, 2, 3, 4, 5]),
+            (true, false, 1, vec![5, 2]),
+            (true, true, 3, vec![2, 4]),
+        ];
+        ctx.prior = vec![];
+        for (sink, discard, fmt, order) in steps {
+            let cfg = Cfg { p_cfg: 5, p_run: Some(2), lb: false, iter: false, discard, sink, threads: 4, reps: 1, flush: None, fmt };
+            batch_case(&mut st, &mut ctx, net_seed, &qs, &fs, &order, &cfg, &mut cache, "run_sequence_one_app");
+            ctx.prior.push(json!({"sink": sink, "discard": discard, "fmt": fmt, "order": order, "reps": 1}));
+        }
+        ctx.prior = vec![];
     }
     // ---- random batches, several configurations and shuffles each
     while st.next_id() < a.n {
